@@ -178,7 +178,7 @@ fn slice_case(em: &mut Emitter, a: &[u8], ca: &[u8], sl: &[u8]) {
 
 pub fn run16(em: &mut Emitter, rng: &mut Rng, thorough: bool) {
     let alpha = [0x61u8, 0x62, 0x00, 0xff];
-    for _ in 0..(if thorough { 60_000 } else { 8_000 }) {
+    for _ in 0..(if thorough { 240_000 } else { 8_000 }) {
         let o = random_os(rng, 3, &alpha, 4);
         let mut data = Vec::new(); os_encode(&o, 0x04, &mut data);
         let content = os_content(&o);
@@ -245,7 +245,7 @@ pub fn run17(em: &mut Emitter, rng: &mut Rng, thorough: bool) {
         for a in sa { for b in sb { if thorough || rng.chance(1, 6) || ca == cb { cmp_case(em, a, b, ca, cb); } } }
         for a in sa { if thorough || rng.chance(1, 3) { slice_case(em, a, ca, cb); } }
     }}
-    for _ in 0..(if thorough { 100_000 } else { 10_000 }) {
+    for _ in 0..(if thorough { 400_000 } else { 10_000 }) {
         let a = random_os(rng, 3, &[0x61, 0x62, 0x00], 5); let b = if rng.chance(1, 3) { random_os(rng, 3, &[0x61, 0x62, 0x00], 5) } else {
             // same content, different segmentation
             let c = os_content(&a); let k = rng.below(c.len() as u64 + 1) as usize;
